@@ -33,7 +33,8 @@ theorem bestFrom_action (rs : List Rule) :
       simp only [bestFrom] at h
       rcases ih ds _ p a h with h' | ⟨r', hr', ha⟩
       · split at h'
-        · split at h'
+        · unfold bestUpd at h'
+          split at h'
           · right; refine ⟨r, by simp, ?_⟩
             simp only [Option.some.injEq, Prod.mk.injEq] at h'; exact h'.2
           · split at h'
